@@ -1066,6 +1066,11 @@ func (x *Exec) trUF(s Sort) string {
 	return n
 }
 
+func (x *Exec) trRefUF() string {
+	x.declUF("TrR", "(declare-fun TrR (Int) Bool)")
+	return "TrR"
+}
+
 func (x *Exec) declAddrUFs(m Mode) {
 	x.declUF("fieldaddr", "(declare-fun fieldaddr (Int Int) Int)")
 	x.declUF("elemaddr", fmt.Sprintf("(declare-fun elemaddr (Int %s) Int)", m.idx()))
